@@ -9,6 +9,7 @@ package c06
 import (
 	"context"
 	"encoding/binary"
+	"encoding/hex"
 	"encoding/json"
 	"fmt"
 	"os"
@@ -335,6 +336,9 @@ type caseT struct {
 	// of this many bytes (bitio.MultiReader, what `[a, b] | tobytes | decode`
 	// builds): reads are short at part boundaries
 	Chunk int `json:"chunk,omitempty"`
+	// Hex: the input bytes themselves (regression inputs that are not one
+	// mutation away from a pool file); Path is then only a label
+	Hex string `json:"hex,omitempty"`
 }
 
 func (c caseT) desc() string {
@@ -447,6 +451,9 @@ func dataOf(path string) []byte {
 
 func runCase(c caseT) (o outcome) {
 	data := apply(dataOf(c.Path), c.Mut)
+	if c.Hex != "" {
+		data, _ = hex.DecodeString(c.Hex)
+	}
 	d := c.desc()
 	harness.Journal(d)
 	defer harness.JournalClear()
